@@ -167,13 +167,18 @@ def Slice.emptyNoCap (s : Slice) : Slice := { s with len := 0, cap := 0 }
 /-- `s[:0]` — capacity retained; NOT what the code does, used only to show that the capacity matters -/
 def Slice.emptyKeepCap (s : Slice) : Slice := { s with len := 0 }
 
-/-- `append(s, xs...)`: in place when the capacity suffices, else a fresh backing array (Go's growth
-    policy only makes the new capacity larger, which nothing here depends on). -/
+/-- Go's growth policy for small slices (`runtime.growslice`, < 256 elements): double the old
+    capacity, or take what is needed if that is more.  (Size-class rounding does not change capacities
+    ≤ 8 for the 16-byte interface values of a `SortDescriptorsBuilder`; modelled, not verified.) -/
+def growCap (old needed : Nat) : Nat := if needed > 2 * old then needed else 2 * old
+
+/-- `append(s, xs...)`: in place when the capacity suffices, else a fresh backing array with the
+    grown capacity. -/
 def Heap.append {α : Type} (h : Heap α) (s : Slice) (xs : List α) : Heap α × Slice :=
   if s.len + xs.length ≤ s.cap then
     (h.write ⟨s.arr, s.off + s.len, xs.length, 0⟩ xs, { s with len := s.len + xs.length })
   else
-    (h ++ [h.read s ++ xs], ⟨h.length, 0, s.len + xs.length, s.len + xs.length⟩)
+    (h ++ [h.read s ++ xs], ⟨h.length, 0, s.len + xs.length, growCap s.cap (s.len + xs.length)⟩)
 
 /-- `Sort(fn, s)` on the heap: in place -/
 def sortH {α : Type} (fn : α → α → Bool) (h : Heap α) (s : Slice) : Heap α :=
@@ -196,6 +201,47 @@ def sortedListBySortDescriptors {α : Type} (ds : List (Desc α)) (input : List 
   let s : Slice := ⟨0, 0, input.length, input.length⟩
   let (h, result) := sortedListH ds [input] s
   (h.read result, h.read s)
+
+/-! ### SortDescriptorsBuilder: a slice VALUE; every `ThenWith…` is `append(builder, d…)` -/
+
+/-- capacity of the slice `NewSortDescriptorsBuilder[T]()` returns: `SortDescriptorsBuilder[T]{}` -/
+def builderInitCap : Nat := 0
+
+/-- `NewSortDescriptorsBuilder[T]()` with a given initial capacity (the code: `builderInitCap`) -/
+def newBuilderCap {δ : Type} (cap : Nat) (h : Heap δ) : Heap δ × Slice :=
+  (h ++ [[]], ⟨h.length, 0, 0, cap⟩)
+
+def newBuilder {δ : Type} (h : Heap δ) : Heap δ × Slice := newBuilderCap builderInitCap h
+
+/-- `builder.ThenWith(ds…)` / `ThenWithFieldName` / `ThenWithTransformerFunctor`:
+    `result := append(builder, ds…)` — the receiver is a slice header passed by value -/
+def thenWith {δ : Type} (h : Heap δ) (builder : Slice) (ds : List δ) : Heap δ × Slice :=
+  h.append builder ds
+
+/-- chain `ThenWith…(d)` for each `d` in turn -/
+def thenWithChain {δ : Type} (h : Heap δ) (builder : Slice) : List δ → Heap δ × Slice
+  | [] => (h, builder)
+  | d :: ds => let (h, b) := thenWith h builder [d]; thenWithChain h b ds
+
+/-- derive one sibling per element of `sibs` from the SAME builder `p`, in order -/
+def deriveSiblings {δ : Type} (h : Heap δ) (p : Slice) : List (List δ) → Heap δ × List Slice
+  | [] => (h, [])
+  | s :: rest =>
+    let (h, b) := thenWithChain h p s
+    let (h, bs) := deriveSiblings h p rest
+    (h, b :: bs)
+
+/-- Build a prefix builder from `New…()` with initial capacity `cap`, fork one sibling per entry of
+    `sibs` from it, and read — AFTER all derivations — the descriptor list each builder holds:
+    the prefix builder first, then the siblings in derivation order. -/
+def forkedBuildersCap {δ : Type} (cap : Nat) (pre : List δ) (sibs : List (List δ)) : List (List δ) :=
+  let (h, b0) := newBuilderCap cap []
+  let (h, p) := thenWithChain h b0 pre
+  let (h, bs) := deriveSiblings h p sibs
+  (p :: bs).map h.read
+
+def forkedBuilders {δ : Type} (pre : List δ) (sibs : List (List δ)) : List (List δ) :=
+  forkedBuildersCap builderInitCap pre sibs
 
 /-! ## stream.go / streamForInterface.go -/
 
@@ -365,6 +411,8 @@ def parseVals (ty : String) (toks : List String) : Option (List Key) :=
 def showVals (l : List Key) : String := "[" ++ " ".intercalate (l.map showVal) ++ "]"
 
 inductive Case
+  | fork (api : String) (pre : List (Desc Rec)) (sibs : List (List (Desc Rec))) (recs : List Rec)
+  | types (api : String) (stacks : List (List (Desc Rec))) (recs : List Rec)
   | desc (api : String) (ds : List (Desc Rec)) (recs : List Rec)
   | cmp (api : String) (less : Rec → Rec → Bool) (recs : List Rec)
   | ord (api : String) (vals : List Key)
@@ -379,6 +427,20 @@ def parseCase (line : String) : Option Case :=
       | some ds, some recs =>
         if ds.length ≥ 1 && (api = "sl" || api = "sb" || api = "tl" || api = "bs" || api = "slp" || api = "bsp")
         then some (.desc api ds recs) else none
+      | _, _ => none
+    | ["F", api, seq] =>
+      -- forked builders: <prefix>/<sibling>/<sibling>[/…]
+      match allSome ((seq.splitOn "/").map parseStack), allSome (toks.map parseRec) with
+      | some (pre :: sibs), some recs =>
+        if sibs.length ≥ 1 && (api = "tl" || api = "bs") then some (.fork api pre sibs recs) else none
+      | _, _ => none
+    | ["T", api, seq] =>
+      -- same-named record types sorted one after the other: X=<stack>/Y=<stack>[/…]
+      let items := seq.splitOn "/"
+      let okTy := items.all (fun it => it.startsWith "X=" || it.startsWith "Y=" || it.startsWith "Z=")
+      match allSome (items.map (fun it => parseStack (it.drop 2).toString)), allSome (toks.map parseRec) with
+      | some stacks, some recs =>
+        if okTy && (api = "sl" || api = "tl") then some (.types api stacks recs) else none
       | _, _ => none
     | ["C", api, cmp] =>
       match cmpByName cmp, allSome (toks.map parseRec) with
@@ -396,6 +458,15 @@ def parseCase (line : String) : Option Case :=
 /-- the model's answer: the sequence of input positions in output order (`D`, `C`), or the values (`O`);
     `mutated` is appended when an input that must stay intact changed. -/
 def runCase : Case → String
+  | .fork _ pre sibs recs =>
+    -- every builder (prefix first, then the siblings) sorts by the descriptor list IT holds
+    let input := tag recs
+    " | ".intercalate ((forkedBuilders pre sibs).map (fun ds =>
+      showIds (sortBySortDescriptors (ds.map liftDesc) input)))
+  | .types _ stacks recs =>
+    -- the record type is irrelevant: each sort is by its own stack
+    let input := tag recs
+    " | ".intercalate (stacks.map (fun ds => showIds (sortedListBySortDescriptors (ds.map liftDesc) input).1))
   | .desc api ds recs =>
     let input := tag recs
     let lds := ds.map liftDesc
@@ -450,9 +521,30 @@ def verdict {β : Type} (less : β → β → Bool) (recs : List β) (ids : List
 
 def countKey (l : List Key) (k : Key) : Nat := (l.filter (· == k)).length
 
+/-- several sorts in one case: every segment must satisfy the property for ITS descriptor list -/
+def judgeSegments (stacks : List (List (Desc Rec))) (recs : List Rec) (impl : String) : String :=
+  let segs := impl.splitOn " | "
+  if segs.length != stacks.length then "violation no sorted list returned: " ++ impl else
+  let vs := (stacks.zip segs).map (fun (ds, seg) =>
+    match parseIds seg with
+    | none => "violation no sorted list returned: " ++ seg
+    | some (ids, mutated) =>
+      if mutated then "violation the input was modified" else verdict (lexLt ds) recs ids)
+  match vs.find? (fun v => v.startsWith "violation") with
+  | some v => v
+  | none => "allowed every sort is an ordered stable permutation by its own descriptor list"
+
 def judgeCase (c : Case) (impl : String) : String :=
   match c with
+  | .fork _ pre sibs recs => judgeSegments (pre :: sibs.map (pre ++ ·)) recs impl
+  | .types _ stacks recs => judgeSegments stacks recs impl
   | .desc api ds recs =>
+    -- harness suffixes (review R2): the same descriptor list / builder used a second time on a fresh copy,
+    -- or the same records in a second struct type of the same name, gave a DIFFERENT sequence: the ordered
+    -- stable permutation is unique, so one of the two sorts violates the property
+    if (impl.splitOn " again=").length > 1 then "violation a second sort with the same descriptors gives a different result: " ++ impl
+    else if (impl.splitOn " twin=").length > 1 then "violation the same records in a second record type sort differently: " ++ impl
+    else
     match parseIds impl with
     | none => "violation no sorted list returned: " ++ impl
     | some (ids, mutated) =>
